@@ -36,7 +36,7 @@ def lexeme_ok(m, d):
     if cl == "lex_nonascii":
         return any(a.lower().lstrip("0x") == "e9" for a in args)
     if cl.startswith("argcount"):
-        return args[:3] == [m["lexeme"], "3", "1"]
+        return args[:3] == [m["lexeme"], "0" if m.get("pos") == "noargs" else "3", "1"]
     return any(a.lower() == m["lexeme"].lower() for a in args)
 
 
